@@ -56,6 +56,9 @@ def run(prog, R, tier="quick", only_rule=None):
     # a reader at a published snapshot keeps finding its version: the version GC bound (shared with C20.d)
     from rules.props import c20
     c20.c20d(prog, R, rid="C06.k")
+    # "the final tree reopens to the flushed state": nothing becomes visible before it is persisted
+    from rules.props import c02
+    c02.c02a(prog, R, rid="C06.m")
 
 
 def held_classes(L, f, bb, must=True):
